@@ -301,6 +301,16 @@ func checkC05(r *core.Result) {
 					r.GroupOb("V-method", grp, name, pos, strings.Join(gotSet, ",") == strings.Join(wantSet, ","), fmt.Sprintf("encoder methods used: %v; spec table: %v", gotSet, wantSet))
 				}
 				r.GroupOb("V-tag", grp, name, pos, okTag && len(gotM) > 0, fmt.Sprintf("keys written with numbers %v; descriptor says %d", callTags(calls[ckey]), num))
+				if strings.HasPrefix(shape, "map<") {
+					// inside an entry the key is field 1 and the value field 2, in that order after the entry header
+					var inner []string
+					for _, c := range calls[ckey] {
+						if c.method != "EncodeMapEntryHeader" {
+							inner = append(inner, c.tag)
+						}
+					}
+					r.GroupOb("V-map-tags", grp, name, pos, strings.Join(inner, ",") == "1,2", fmt.Sprintf("entry fields are written with numbers %v; a map entry is key = 1, value = 2", inner))
+				}
 			}
 			oneofDone := map[string]bool{}
 			for _, f := range mc.desc.Fields {
